@@ -62,7 +62,26 @@ func (x *Exec) callCommon(fr *Frame, st *State, ins ssa.Instruction, cc *ssa.Cal
 		defer func() { x.oblige(fr, "cover", "after "+snippetOf(ins), st, tFalse, pos) }()
 	}
 	if cc.IsInvoke() {
+		record := fr == x.root && !fr.spec && x.vc.noName == 0
+		var argTerms []Term
+		if record {
+			argTerms = append([]Term{x.val(fr, st, cc.Value)}, x.args(fr, st, cc)...)
+		}
 		x.invoke(fr, st, ins, cc, res)
+		if record {
+			rec := &callRec{called: tTrue, args: argTerms}
+			if res != nil {
+				if t, ok := fr.regs[res]; ok {
+					rec.results = []Term{t}
+				} else if tup, ok := fr.tuples[res]; ok {
+					rec.results = tup
+				}
+			}
+			if st.calls == nil {
+				st.calls = map[string]*callRec{}
+			}
+			st.calls[cc.Method.Name()] = rec
+		}
 		return
 	}
 	switch callee := cc.Value.(type) {
@@ -938,7 +957,7 @@ var pureNames = map[string]bool{
 	"github.com/go-openapi/swag.ToCommandName": true, "github.com/go-openapi/swag.Camelize": true,
 	"github.com/go-openapi/swag.ContainsStringsCI": true, "github.com/go-openapi/swag.ContainsStrings": true,
 	"github.com/go-openapi/inflect.Pluralize": true, "github.com/go-openapi/inflect.Singularize": true,
-	"reflect.DeepEqual": true, "errors.Is": true,
+	"reflect.DeepEqual": true, "errors.Is": true, "github.com/go-openapi/swag.IsZero": true,
 	"os.Getenv": true,
 }
 
